@@ -188,8 +188,36 @@ def exprSpan : Expr → Span
   | .member sp .. | .cast sp .. | .ifE sp .. | .matchE sp .. | .tryE sp .. => sp
   | .blockE (.mk sp ..) => sp
 
+/-- The label `return` jumps to: the cleanup label of the function being compiled. It is stored
+as the pseudo scope entry `cleanup:<module>:<fn>`. -/
+def cleanupLabel : C String := do
+  let s ← get
+  pure ((s.scopes.findSome? fun sc => sc.lookup s!"cleanup:{s.currModule}:{s.currFn}").getD "?cleanup")
+
+def compileParams (sp : Span) : List Param → C Unit
+  | [] => pure ()
+  | p :: ps => do
+    if !p.isSingleton then
+      let n ← mangleVar p.name
+      emit (.setVar n) sp
+    compileParams sp ps
+
+def compileSingletonParams (sp : Span) : List Param → C Unit
+  | [] => pure ()
+  | p :: ps => do
+    if p.isSingleton then
+      match ← getMangled p.singleton with
+      | some g => do
+        emit (.getGlob g) sp
+        let n ← mangleVar p.name
+        emit (.setVar n) sp
+      | none => unsup "singleton not found"
+    compileSingletonParams sp ps
+
 mutual
-partial def compileExpr (e : Expr) : C Unit :=
+def compileExpr : Nat → Expr → C Unit
+  | 0, _ => unsup "compiler model fuel"
+  | fuel + 1, e =>
   match e with
   | .int sp v => emit (.copyPush (.int v)) sp
   | .float sp b => emit (.copyPush (.float b)) sp
@@ -205,13 +233,10 @@ partial def compileExpr (e : Expr) : C Unit :=
       | some f => emit (.copyPush (.vmFn f)) sp
       | none => emit (if isGlobal || isSingleton then .getGlob name else .getVar name) sp
   | .range sp a b incl => do
-    compileExpr a; compileExpr b; emit (.intoRange incl) sp
+    compileExpr fuel a; compileExpr fuel b; emit (.intoRange incl) sp
   | .list sp _ xs => do
     emit (.cloningPush .emptyList) sp
-    for x in xs do
-      compileExpr x
-      emit (.copyPush (.int 2)) sp
-      emit (.hostCall "__internal_list_push") sp
+    compileListElems fuel sp xs
   | .anyobj sp => emit (.cloningPush .emptyAnyObj) sp
   | .obj sp _ fields => do
     let zs := fields.mapM fun (k, fe) => do pure (k, ← zeroPVal fe.ty)
@@ -221,11 +246,7 @@ partial def compileExpr (e : Expr) : C Unit :=
       -- the Go code builds a map: later duplicates overwrite earlier ones
       let dedup := zs.foldl (fun acc (k, v) => acc.filter (·.1 != k) ++ [(k, v)]) []
       emit (.cloningPush (.obj dedup)) sp
-      for (k, fe) in fields do
-        emit .dup sp
-        emit (.member k) sp
-        compileExpr fe
-        emit .assign sp
+      compileObjFields fuel sp fields
   | .lambda sp _ params ret body => do
     let s ← get
     let ident := s!"$lambda_{s.lambdaCount}"
@@ -233,12 +254,12 @@ partial def compileExpr (e : Expr) : C Unit :=
     let fnName := mangleFnName s.currModule ident
     addFn ident fnName
     let old := s.currFn
-    compileFn ⟨sp, ident, params, ret, 0, false, body⟩
+    compileFn fuel ⟨sp, ident, params, ret, 0, false, body⟩
     modify fun s => { s with currFn := old }
     emit (.copyPush (.vmFn fnName)) sp
-  | .grouped _ e => compileExpr e
+  | .grouped _ e => compileExpr fuel e
   | .pre sp _ op e => do
-    compileExpr e
+    compileExpr fuel e
     match op with
     | .neg => emit .neg sp
     | .not => emit .not sp
@@ -248,10 +269,10 @@ partial def compileExpr (e : Expr) : C Unit :=
     | .or => do
       let rt ← mangleLabel "return_true"
       let af ← mangleLabel "after_infix"
-      compileExpr l
+      compileExpr fuel l
       emit .not sp
       emit (.jumpIfFalse rt) sp
-      compileExpr r
+      compileExpr fuel r
       emit (.jump af) sp
       emit (.label rt) sp
       emit (.copyPush (.bool true)) sp
@@ -259,15 +280,15 @@ partial def compileExpr (e : Expr) : C Unit :=
     | .and => do
       let rf ← mangleLabel "return_false"
       let af ← mangleLabel "after_infix"
-      compileExpr l
+      compileExpr fuel l
       emit (.jumpIfFalse rf) sp
-      compileExpr r
+      compileExpr fuel r
       emit (.jump af) sp
       emit (.label rf) sp
       emit (.copyPush (.bool false)) sp
       emit (.label af) sp
     | _ => do
-      compileExpr l; compileExpr r; arith op sp
+      compileExpr fuel l; compileExpr fuel r; arith op sp
   | .assign sp op l r =>
     match l with
     | .ident _ _ name isGlobal _ _ => do
@@ -275,21 +296,21 @@ partial def compileExpr (e : Expr) : C Unit :=
       match op with
       | some o => do
         emit (if isGlobal then .getGlob m else .getVar m) sp
-        compileExpr r
+        compileExpr fuel r
         arith o sp
-      | none => compileExpr r
+      | none => compileExpr fuel r
       emit (if isGlobal then .setGlob m else .setVar m) sp
     | _ => do
-      compileExpr l
+      compileExpr fuel l
       match op with
       | some o => do
         emit .dup sp
-        compileExpr r
+        compileExpr fuel r
         arith o sp
-      | none => compileExpr r
+      | none => compileExpr fuel r
       emit .assign sp
   | .call sp _ base args isSpawn => do
-    for a in args.reverse do compileExpr a.2
+    compileExprs fuel (args.reverse.map (·.2))
     let argc : SInstr := .copyPush (.int args.length)
     match base with
     | .ident _ _ name _ _ _ =>
@@ -298,7 +319,7 @@ partial def compileExpr (e : Expr) : C Unit :=
         match ← getMangled name with
         | some _ => do
           if isSpawn then unsup "spawn of a variable"
-          compileExpr base
+          compileExpr fuel base
           emit argc sp
           emit .callVal sp
         | none =>
@@ -312,60 +333,48 @@ partial def compileExpr (e : Expr) : C Unit :=
             emit .callVal sp
     | _ => do
       if isSpawn then unsup "spawn of a non-identifier"
-      compileExpr base
+      compileExpr fuel base
       emit argc sp
       emit .callVal sp
   | .index sp _ b i => do
-    compileExpr b; compileExpr i; emit .index sp
+    compileExpr fuel b; compileExpr fuel i; emit .index sp
   | .member sp _ b name op => do
-    compileExpr b
+    compileExpr fuel b
     match op with
     | .dot => emit (.member name) sp
     | .arrow => emit (.memberAnyobj name) sp
     | .tildeArrow => do emit (.memberAnyobj name) sp; emit .unwrap sp
   | .cast sp ty e => do
-    compileExpr e; emit (.cast ty true) sp
-  | .blockE b => compileBlock b true
+    compileExpr fuel e; emit (.cast ty true) sp
+  | .blockE b => compileBlock fuel b true
   | .ifE sp _ c t el => do
-    compileExpr c
+    compileExpr fuel c
     let after ← mangleLabel "if_after"
     let els ← mangleLabel "else"
     emit (.jumpIfFalse (if el.isSome then els else after)) sp
-    compileBlock t true
+    compileBlock fuel t true
     emit (.jump after) sp
     match el with
     | some eb => do
       emit (.label els) sp
-      compileBlock eb true
+      compileBlock fuel eb true
     | none => pure ()
     emit (.label after) sp
   | .matchE sp _ c arms dflt => do
-    compileExpr c
+    compileExpr fuel c
     let after ← mangleLabel "match_after"
-    let mut branches : List String := []
-    for (lits, _) in arms do
-      let name ← mangleLabel "case"
-      branches := branches ++ [name]
-      for l in lits do
-        compileExpr l
-        emit .eqPopOnce sp
-        emit .not sp
-        emit (.jumpIfFalse name) sp
+    let branches ← compileArmTests fuel sp arms
     let dfl ← mangleLabel "match_default"
     if dflt.isSome then emit (.jump dfl) sp
     else do
       emit .drop sp
       emit (.jump after) sp
-    for ((_, act), name) in arms.zip branches do
-      emit (.label name) sp
-      emit .drop sp
-      compileExpr act
-      emit (.jump after) sp
+    compileArmBodies fuel sp after (arms.zip branches)
     match dflt with
     | some d => do
       emit (.label dfl) sp
       emit .drop sp
-      compileExpr d
+      compileExpr fuel d
       emit (.jump after) sp
     | none => pure ()
     emit (.label after) sp
@@ -375,7 +384,7 @@ partial def compileExpr (e : Expr) : C Unit :=
     let exc ← mangleLabel "exception_label"
     let after ← mangleLabel "after_catch_label"
     emit (.setTry curr exc) sp
-    compileBlock t true
+    compileBlock fuel t true
     emit .popTry sp
     emit (.jump after) sp
     emit (.label exc) sp
@@ -383,39 +392,94 @@ partial def compileExpr (e : Expr) : C Unit :=
     let ev ← mangleVar catchIdent
     emit (.setVar ev) sp
     emit .popTry sp
-    compileBlock c false
+    compileBlock fuel c false
     emit (.label after) sp
     popScopeC
-partial def compileBlock (b : Block) (scope : Bool) : C Unit :=
-  match b with
-  | .mk _ _ stmts e => do
+def compileExprs : Nat → List Expr → C Unit
+  | 0, _ => unsup "compiler model fuel"
+  | _ + 1, [] => pure ()
+  | fuel + 1, e :: es => do compileExpr fuel e; compileExprs fuel es
+def compileListElems : Nat → Span → List Expr → C Unit
+  | 0, _, _ => unsup "compiler model fuel"
+  | _ + 1, _, [] => pure ()
+  | fuel + 1, sp, x :: xs => do
+    compileExpr fuel x
+    emit (.copyPush (.int 2)) sp
+    emit (.hostCall "__internal_list_push") sp
+    compileListElems fuel sp xs
+def compileObjFields : Nat → Span → List (String × Expr) → C Unit
+  | 0, _, _ => unsup "compiler model fuel"
+  | _ + 1, _, [] => pure ()
+  | fuel + 1, sp, (k, fe) :: rest => do
+    emit .dup sp
+    emit (.member k) sp
+    compileExpr fuel fe
+    emit .assign sp
+    compileObjFields fuel sp rest
+/-- The comparison cascade of a `match`: returns the case labels in arm order. -/
+def compileArmTests : Nat → Span → List (List Expr × Expr) → C (List String)
+  | 0, _, _ => do unsup "compiler model fuel"; pure []
+  | _ + 1, _, [] => pure []
+  | fuel + 1, sp, (lits, _) :: rest => do
+    let name ← mangleLabel "case"
+    compileLitTests fuel sp name lits
+    let names ← compileArmTests fuel sp rest
+    pure (name :: names)
+def compileLitTests : Nat → Span → String → List Expr → C Unit
+  | 0, _, _, _ => unsup "compiler model fuel"
+  | _ + 1, _, _, [] => pure ()
+  | fuel + 1, sp, name, l :: ls => do
+    compileExpr fuel l
+    emit .eqPopOnce sp
+    emit .not sp
+    emit (.jumpIfFalse name) sp
+    compileLitTests fuel sp name ls
+def compileArmBodies : Nat → Span → String → List ((List Expr × Expr) × String) → C Unit
+  | 0, _, _, _ => unsup "compiler model fuel"
+  | _ + 1, _, _, [] => pure ()
+  | fuel + 1, sp, after, ((_, act), name) :: rest => do
+    emit (.label name) sp
+    emit .drop sp
+    compileExpr fuel act
+    emit (.jump after) sp
+    compileArmBodies fuel sp after rest
+def compileBlock : Nat → Block → Bool → C Unit
+  | 0, _, _ => unsup "compiler model fuel"
+  | fuel + 1, .mk _ _ stmts e, scope => do
     if scope then pushScopeC
-    for s in stmts do compileStmt s
+    compileStmts fuel stmts
     match e with
-    | some e => compileExpr e
+    | some e => compileExpr fuel e
     | none => pure ()
     if scope then popScopeC
-partial def compileLet (sp : Span) (name : String) (needsCast : Bool) (optTy : Ty) (e : Expr)
-    (isGlobal : Bool) : C String := do
-  compileExpr e
-  if needsCast then emit (.cast optTy false) sp
-  let m ← mangleVar name
-  emit (if isGlobal then .setGlob m else .setVar m) sp
-  bumpVars
-  pure m
-partial def compileStmt (st : Stmt) : C Unit :=
+def compileStmts : Nat → List Stmt → C Unit
+  | 0, _ => unsup "compiler model fuel"
+  | _ + 1, [] => pure ()
+  | fuel + 1, s :: ss => do compileStmt fuel s; compileStmts fuel ss
+def compileLet : Nat → Span → String → Bool → Ty → Expr → Bool → C String
+  | 0, _, _, _, _, _, _ => do unsup "compiler model fuel"; pure ""
+  | fuel + 1, sp, name, needsCast, optTy, e, isGlobal => do
+    compileExpr fuel e
+    if needsCast then emit (.cast optTy false) sp
+    let m ← mangleVar name
+    emit (if isGlobal then .setGlob m else .setVar m) sp
+    bumpVars
+    pure m
+def compileStmt : Nat → Stmt → C Unit
+  | 0, _ => unsup "compiler model fuel"
+  | fuel + 1, st =>
   match st with
   | .typedef _ => pure ()
   | .trigger sp cb _ tr args => do
-    for a in args.reverse do compileExpr a.2
+    compileExprs fuel (args.reverse.map (·.2))
     emit (.copyPush (.str tr)) sp
     emit (.copyPush (.str cb)) sp
     emit (.copyPush (.int (2 + args.length))) sp
     emit (.hostCall "@trigger") sp
-  | .letS sp name _ needsCast optTy e => do let _ ← compileLet sp name needsCast optTy e false
+  | .letS sp name _ needsCast optTy e => do let _ ← compileLet fuel sp name needsCast optTy e false
   | .ret sp e => do
     match e with
-    | some e => compileExpr e
+    | some e => compileExpr fuel e
     | none => pure ()
     emit (.jump (← cleanupLabel)) sp
   | .brk sp => do
@@ -431,7 +495,7 @@ partial def compileStmt (st : Stmt) : C Unit :=
     let after ← mangleLabel "loop_end"
     emit (.label head) sp
     modify fun s => { s with loops := (after, head) :: s.loops }
-    compileBlock body true
+    compileBlock fuel body true
     emit (.jump head) sp
     emit (.label after) sp
     modify fun s => { s with loops := s.loops.tail }
@@ -439,10 +503,10 @@ partial def compileStmt (st : Stmt) : C Unit :=
     let head ← mangleLabel "loop_head"
     let after ← mangleLabel "loop_end"
     emit (.label head) sp
-    compileExpr c
+    compileExpr fuel c
     emit (.jumpIfFalse after) sp
     modify fun s => { s with loops := (after, head) :: s.loops }
-    compileBlock body true
+    compileBlock fuel body true
     emit (.jump head) sp
     emit (.label after) sp
     modify fun s => { s with loops := s.loops.tail }
@@ -451,7 +515,7 @@ partial def compileStmt (st : Stmt) : C Unit :=
     let update ← mangleLabel "loop_update"
     let after ← mangleLabel "loop_end"
     pushScopeC
-    compileExpr iter
+    compileExpr fuel iter
     emit .clone sp
     emit .intoIter sp
     let it ← mangleVar s!"$iter_{name}"
@@ -463,21 +527,18 @@ partial def compileStmt (st : Stmt) : C Unit :=
     emit (.setVar hv) sp
     emit (.jumpIfFalse after) sp
     modify fun s => { s with loops := (after, update) :: s.loops }
-    compileBlock body false
+    compileBlock fuel body false
     emit (.label update) sp
     emit (.jump head) sp
     emit (.label after) sp
     modify fun s => { s with loops := s.loops.tail }
     popScopeC
   | .exprS sp e => do
-    compileExpr e
+    compileExpr fuel e
     if !e.ty.isNull then emit .drop sp
-/-- The label `return` jumps to: the cleanup label of the function being compiled. It is stored
-as the pseudo variable-mangle entry `cleanup:<module>:<fn>`. -/
-partial def cleanupLabel : C String := do
-  let s ← get
-  pure ((s.scopes.findSome? fun sc => sc.lookup s!"cleanup:{s.currModule}:{s.currFn}").getD "?cleanup")
-partial def compileFn (fd : FnDef) : C Unit := do
+def compileFn : Nat → FnDef → C Unit
+  | 0, _ => unsup "compiler model fuel"
+  | fuel + 1, fd => do
   let m := mangleFnName (← get).currModule fd.name
   addFn fd.name m
   modify fun s => { s with currFn := fd.name }
@@ -485,18 +546,8 @@ partial def compileFn (fd : FnDef) : C Unit := do
   if fd.hasAnnotation then unsup "function annotation"
   let mpIdx ← currLen
   emit (.addMp 0) fd.sp
-  for p in fd.params do
-    if !p.isSingleton then
-      let n ← mangleVar p.name
-      emit (.setVar n) fd.sp
-  for p in fd.params do
-    if p.isSingleton then
-      match ← getMangled p.singleton with
-      | some g => do
-        emit (.getGlob g) fd.sp
-        let n ← mangleVar p.name
-        emit (.setVar n) fd.sp
-      | none => unsup "singleton not found"
+  compileParams fd.sp fd.params
+  compileSingletonParams fd.sp fd.params
   let cleanup ← mangleLabel "cleanup"
   -- remember the cleanup label for `return` (scoped like a variable, so nested lambdas restore it)
   modify fun s =>
@@ -504,7 +555,7 @@ partial def compileFn (fd : FnDef) : C Unit := do
     match s.scopes with
     | sc :: rest => { s with scopes := ((key, cleanup) :: sc) :: rest }
     | [] => s
-  compileBlock fd.body false
+  compileBlock fuel fd.body false
   let s ← get
   let cnt : Int := ((s.fns.lookup (s.currModule, fd.name)).map (·.cntVars)).getD 0
   updCurr fun f => { f with code := f.code.set mpIdx (.addMp cnt, fd.sp) }
@@ -515,7 +566,7 @@ partial def compileFn (fd : FnDef) : C Unit := do
 end
 
 /-- `compileProgram`: modules are visited in the order given (the Go code ranges over a map). -/
-def compileProgram (prog : Program) (entry : String) : C Unit := do
+def compileProgram (fuel : Nat) (prog : Program) (entry : String) : C Unit := do
   -- pass 1: init functions, singletons, globals, imports, function names
   for m in prog do
     modify fun s => { s with currModule := m.name }
@@ -532,7 +583,7 @@ def compileProgram (prog : Program) (entry : String) : C Unit := do
       | none => unsup "singleton without a zero value"
     for g in m.globals do
       match g with
-      | .letS sp name _ needsCast optTy e => do let _ ← compileLet sp name needsCast optTy e true
+      | .letS sp name _ needsCast optTy e => do let _ ← compileLet fuel sp name needsCast optTy e true
       | _ => unsup "global statement"
     for imp in m.imports do
       if !imp.targetIsHms then
@@ -543,7 +594,7 @@ def compileProgram (prog : Program) (entry : String) : C Unit := do
   -- pass 2: function bodies, then the entry module's init epilogue
   for m in prog do
     modify fun s => { s with currModule := m.name }
-    for f in m.fns do compileFn f
+    for f in m.fns do compileFn fuel f
     if m.name == entry then
       modify fun s => { s with currFn := "@init", currModule := entry }
       let mainSp := (m.fns.find? (·.name == "main")).map (·.sp) |>.getD default
@@ -630,8 +681,8 @@ structure Compiled where
   entryFns : List (String × String)
   deriving Inhabited
 
-def compile (prog : Program) (entry : String := "main") : Except String Compiled :=
-  let (_, s) := (compileProgram prog entry).run {}
+def compile (prog : Program) (entry : String := "main") (fuel : Nat := 10000) : Except String Compiled :=
+  let (_, s) := (compileProgram fuel prog entry).run {}
   match s.unsupported with
   | some w => .error w
   | none =>
